@@ -26,7 +26,7 @@ impl Property for C12 {
         "C12"
     }
     fn rule(&self) -> String {
-        "Cases: (source vector of any zoo type/length/provenance incl. spare capacity and heap-mode Bv, destination zoo type, by reference | by value) for every ordered pair of the 19 types and every form that exists (Bvf->Bvf exists by reference only), plus new(into_inner()) for Bvf and Bvd. Enumerated: every source length n<=min(C_S,320) x three value classes x 19x19 pairs x both forms. Oracle: the target has the same length and bits and passes the observer battery; Err(NotEnoughCapacity) exactly when n exceeds the target's fixed capacity, never for Bvd/Bv targets; the source is unchanged. Non-trivial: n>0 and (n is not a multiple of the target's storage word, or |n - capacity(target)|<=1, or the source has non-canonical provenance). Distinct by hash of the case.".into()
+        "Cases: (source vector of any zoo type/length/provenance incl. spare capacity and heap-mode Bv, destination zoo type, by reference | by value) for every ordered pair of the 20 types and every form that exists (Bvf->Bvf exists by reference only), plus new(into_inner()) for Bvf and Bvd. Enumerated: every source length n<=min(C_S,320) x three value classes x 20x20 pairs x both forms. Oracle: the target has the same length and bits and passes the observer battery; Err(NotEnoughCapacity) exactly when n exceeds the target's fixed capacity, never for Bvd/Bv targets; the source is unchanged. Non-trivial: n>0 and (n is not a multiple of the target's storage word, or |n - capacity(target)|<=1, or the source has non-canonical provenance). Distinct by hash of the case.".into()
     }
     fn random_cases(&self, tier: Tier) -> u64 {
         tier.pick(200000, 6400000)
@@ -37,7 +37,7 @@ impl Property for C12 {
         prop_oneof![8 => conv, 1 => reb].boxed()
     }
     fn exhaustive_subspaces(&self, _tier: Tier) -> Vec<String> {
-        vec!["every source length n<=min(capacity,320) x four value classes (incl. a small value in a long vector) x all 19x19 ordered type pairs x by-reference/by-value".into()]
+        vec!["every source length n<=min(capacity,320) x four value classes (incl. a small value in a long vector) x all 20x20 ordered type pairs x by-reference/by-value".into()]
     }
     fn enumerate(&self, _tier: Tier, sh: &mut Shard, f: &mut dyn FnMut(C12Case) -> bool) {
         for s in 0..NT {
